@@ -49,7 +49,7 @@ def correspondence(ctx):
                 ctx.disagree(stream, "vcmp %s" % name, d["impl"], d["model"], True, rep, region=_region(name), spec="== implies equal hash")
             else:
                 ctx.disagree(stream, "vcmp %s" % name, d["impl"], d["model"], False, rep)
-    psize = 80 if ctx.thorough else 24
+    psize = 80 if ctx.thorough else 36
     for name in A.ALL:
         rng = ctx.rng("c12-pool", name)
         pool = A.valid_pool(name, rng, psize)
